@@ -979,7 +979,10 @@ class AbstractExcelInPython(ABC):
 
     def _cell_preprocessor(self, cell_uid: str):
         # Ищем метод расчета значения ячейки среди методов и аттрибутов экземпляра и класса
-        method = self.__dict__.get(cell_uid, self.__class__.__dict__.get(cell_uid))
+        method = self.__dict__.get(cell_uid)
+        if method is None:
+            # the class itself and the classes it is derived from (a hand-written subclass of a generated class keeps its cells)
+            method = next((klass.__dict__[cell_uid] for klass in type(self).__mro__ if cell_uid in klass.__dict__), None)
         # Ищем значение значение ячейки среди установленных в ручную через set_cells, если не находим, считаем результат
         # с помощью найденного выше метода, если же не найден и метод, возвращаем "пустую ячейку"
         if cell_uid in self._arguments:
